@@ -1,11 +1,21 @@
 (* Check/C13.v — correspondence comparator for C13 (StreamStats).
-   Line:  13 k nops { opcode a b  count total min max mean var std rms weight }*
-     opcode 0: acc[a].Add(float b)      opcode 1: acc[a].Combine(&acc[b])      opcode 2: no call (b ignored)
-   followed each time by the nine observables of acc[a] as the implementation
-   reported them (count as an integer, the rest as float64 bit patterns). *)
+   Line:  13 k  F  nops { opcode a b  O }*
+     F, O = count total min max mean var std rms weight   (count an integer, the rest float64 bit patterns)
+     F    = the nine observables of a FRESH accumulator (zero value, never touched) of the library under test
+     opcode 0: acc[a].Add(float b)      opcode 1: acc[a].Combine(&acc[b])  (a = b allowed: s.Combine(s))
+     opcode 2: no call (b ignored)
+   followed each time by the nine observables O of acc[a] as the implementation reported them.
+
+   What is compared (audit, round 2b):
+     Count, Weight, Total                      always (Total of an empty accumulator: exactly 0)
+     Min, Max                                  n >= 1: exactly the model's;  n = 0: equal to the FRESH accumulator's
+     Mean, RMS                                 n >= 1: within rounding;      n = 0: equal to the FRESH accumulator's
+     Variance, StdDev                          n >= 2 ("for two or more values"); nothing is demanded for n < 2
+   n = 0: the property fixes no value for the mean of no values, but "combining ... ones that have received no
+   values yields the same statistics as adding both sequences to a single StreamStats": the single StreamStats
+   with nothing added is the fresh one, so an empty accumulator however obtained must report what F reports. *)
 From MM Require Import Base.Num Model.Stream.
 Local Open Scope Q_scope.
-
 Record sobs := mkObs { o_count : Z; o_total : xreal; o_min : xreal; o_max : xreal; o_mean : xreal; o_var : xreal; o_std : xreal; o_rms : xreal; o_weight : xreal }.
 
 Definition p_obs : parser sobs :=
@@ -19,62 +29,81 @@ Definition p_op : parser (sop * sobs) :=
   else if (code =? 2)%Z then (do i <- pnat; do _ <- pZ; do o <- p_obs; pret (SNop i, o))
   else (fun _ => None).
 
-Definition p_line : parser (nat * list (sop * sobs)) :=
+Definition p_line : parser (nat * sobs * list (sop * sobs)) :=
   do tag <- pZ; if negb (tag =? 13)%Z then (fun _ => None) else
-  do k <- pnat; do ops <- plist_any p_op; pend (k, ops).
+  do k <- pnat; do fr <- p_obs; do ops <- plist_any p_op; pend (k, fr, ops).
 
 Definition op_target (o : sop) : nat := match o with SAdd i _ => i | SCombine i _ => i | SNop i => i end.
 
-(* tolerances ("to within rounding"), functions of the exact state *)
-Definition nq (s : sstate) : Q := QofN (s_count s).
-Definition maxabs (s : sstate) : Q := Qmaxb (Qabs (s_min s)) (Qabs (s_max s)).
-Definition range (s : sstate) : Q := s_max s - s_min s.
-Definition tol_total (s : sstate) : Q := 2 * nq s * nq s * ulp53 * maxabs s.
-Definition tol_mean (s : sstate) : Q := (4 * nq s + 16) * ulp53 * maxabs s.
-Definition tol_msq (s : sstate) : Q := (4 * nq s + 16) * ulp53 * (maxabs s * maxabs s).
-Definition tol_var (s : sstate) : Q := (1 # 1000000000) * s_variance s + 256 * ulp53 * maxabs s * range s.
+(* tolerances ("to within rounding"), functions of the batch quantities only: the number n of values,
+   their least and greatest value lo, hi, and d = min (n, number of operations performed so far) — an upper
+   bound on the depth of the floating-point computation that produced the state (every Add/Combine derives a
+   state from at most two earlier ones in O(1) operations).  For histories without repeated combination d = n;
+   with s.Combine(s) chains the count doubles per step while the rounding error grows by one step's worth, and
+   the tolerance stays tight although n is astronomically large.
+     total: depth * u * sum|x_i| <= d * n * u * maxabs            (x2 slack)
+     mean, mean of squares: a few u * maxabs per step             (4 d + 16)
+     variance: relative 1e-9 + the cancellation term of Welford/Chan: a few u * maxabs * range
+               (offset 1e9 x spread: 7e-6 of spread^2; measured worst error of the unchanged code: 1/64 of this term; a formula that cancels catastrophically errs by
+                n * u * maxabs^2 = 1e4 spread^2) *)
+Definition maxabs2 (lo hi : Q) : Q := Qmaxb (Qabs lo) (Qabs hi).
+Definition tolm_total (d n : N) (lo hi : Q) : Q := 2 * QofN d * QofN n * ulp53 * maxabs2 lo hi.
+Definition tolm_mean (d : N) (lo hi : Q) : Q := (4 * QofN d + 16) * ulp53 * maxabs2 lo hi.
+Definition tolm_msq (d : N) (lo hi : Q) : Q := (4 * QofN d + 16) * ulp53 * (maxabs2 lo hi * maxabs2 lo hi).
+Definition tolm_var (v lo hi : Q) : Q := (1 # 1000000000) * v + 64 * ulp53 * maxabs2 lo hi * (hi - lo).
+Definition tolm_weight (n : N) : Q := ulp53 * QofN n.        (* float64(Count) rounds above 2^53 *)
 
 (* index of the first observable that disagrees: 0 count, 1 total, 2 min, 3 max, 4 mean,
    5 variance, 6 stddev, 7 rms, 8 weight; None when all agree *)
 Definition first_false (l : list bool) : option Z :=
   (fix go (l : list bool) (i : Z) := match l with [] => None | true :: t => go t (i + 1)%Z | false :: _ => Some i end) l 0%Z.
 
-Definition std_ok (s : sstate) (o : sobs) : bool :=
+(* StdDev must be a finite non-negative float whose square is the variance (a NaN is NOT accepted: Welford's
+   increment delta*(x-mean') and Chan's merge term are non-negative in floats too, so the unchanged code never
+   takes the root of a negative number; round 1 accepted NaN next to a slightly negative variance) *)
+Definition std_ok (v lo hi : Q) (o : sobs) : bool :=
   match o_std o with
-  | XFin sd => close_sqrt (tol_var s + 8 * ulp53 * s_variance s) (s_variance s) sd
-  | XNaN => (* sqrt of a variance that rounding pushed below zero *)
-            match o_var o with XFin v => Qltb v 0 && within (tol_var s) (s_variance s) v | _ => false end
+  | XFin sd => close_sqrt (tolm_var v lo hi + 8 * ulp53 * v) v sd
+  | _ => false
+  end.
+Definition rms_ok (d : N) (msq lo hi : Q) (o : sobs) : bool :=
+  match o_rms o with
+  | XFin r => close_sqrt (tolm_msq d lo hi + 8 * ulp53 * msq) msq r
   | _ => false
   end.
 
-Definition compare (s : sstate) (o : sobs) : option Z :=
+(* fr: the observation of a fresh accumulator; steps: number of operations performed so far *)
+Definition compare (fr : sobs) (steps : N) (s : sstate) (o : sobs) : option Z :=
   let n := s_count s in
+  let d := N.min n steps in
+  let lo := s_min s in let hi := s_max s in
+  let v := s_variance s in
   first_false
     [ (o_count o =? Z.of_N n)%Z;
-      xwithin (tol_total s) (XFin (s_total s)) (o_total o);
-      (n =? 0)%N || xeq (XFin (s_min s)) (o_min o);
-      (n =? 0)%N || xeq (XFin (s_max s)) (o_max o);
-      (n =? 0)%N || xwithin (tol_mean s) (XFin (s_mean s)) (o_mean o);
-      (n <? 2)%N || xwithin (tol_var s) (XFin (s_variance s)) (o_var o);
-      (n <? 2)%N || std_ok s o;
-      (n =? 0)%N || match o_rms o with XFin r => close_sqrt (tol_msq s + 8 * ulp53 * s_msq s) (s_msq s) r | _ => false end;
-      xwithin (ulp53 * nq s) (XFin (nq s)) (o_weight o) ].   (* float64(Count) rounds above 2^53 *)
+      xwithin (tolm_total d n lo hi) (XFin (s_total s)) (o_total o);
+      if (n =? 0)%N then xeq (o_min fr) (o_min o) else xeq (XFin lo) (o_min o);
+      if (n =? 0)%N then xeq (o_max fr) (o_max o) else xeq (XFin hi) (o_max o);
+      if (n =? 0)%N then xeq (o_mean fr) (o_mean o) else xwithin (tolm_mean d lo hi) (XFin (s_mean s)) (o_mean o);
+      (n <? 2)%N || xwithin (tolm_var v lo hi) (XFin v) (o_var o);
+      (n <? 2)%N || std_ok v lo hi o;
+      if (n =? 0)%N then xeq (o_rms fr) (o_rms o) else rms_ok d (s_msq s) lo hi o;
+      xwithin (tolm_weight n) (XFin (QofN n)) (o_weight o) ].
 
 (* branch tag: bit 0 = history contains a Combine, bit 1 = a Combine with an empty side,
-   bit 2 = some accumulator reached >= 2 values *)
+   bit 2 = some accumulator reached >= 2 values, bit 3 = s.Combine(s), bit 4 = a count >= 2^53 *)
 Definition op_tag (accs : list sstate) (o : sop) (s' : sstate) : Z :=
-  let big := if (2 <=? s_count s')%N then 4%Z else 0%Z in
+  let big := Z.lor (if (2 <=? s_count s')%N then 4%Z else 0%Z) (if (9007199254740992 <=? s_count s')%N then 16%Z else 0%Z) in
   match o with
   | SCombine i j =>
       let e := match nth_error accs i, nth_error accs j with
                | Some a, Some b => (s_count a =? 0)%N || (s_count b =? 0)%N
                | _, _ => false end in
-      Z.lor (Z.lor 1 (if e then 2 else 0)) big
+      Z.lor (Z.lor (Z.lor 1 (if e then 2 else 0)) (if Nat.eqb i j then 8 else 0)) big
   | _ => big
   end.
 
 (* run the history; stop at the first disagreement: (op index, observable index) *)
-Fixpoint run_cmp (accs : list sstate) (ops : list (sop * sobs)) (idx tag : Z) : Z * option (Z * Z * sstate) :=
+Fixpoint run_cmp (fr : sobs) (accs : list sstate) (ops : list (sop * sobs)) (idx tag : Z) : Z * option (Z * Z * sstate) :=
   match ops with
   | [] => (tag, None)
   | (op, o) :: rest =>
@@ -82,23 +111,29 @@ Fixpoint run_cmp (accs : list sstate) (ops : list (sop * sobs)) (idx tag : Z) : 
       match nth_error accs' (op_target op) with
       | None => (tag, Some (idx, (-1)%Z, s_init))        (* accumulator index out of range: malformed *)
       | Some s => let tag' := Z.lor tag (op_tag accs op s) in
-                  match compare s o with
+                  match compare fr (Z.to_N (idx + 1)) s o with
                   | Some w => (tag', Some (idx, w, s))
-                  | None => run_cmp accs' rest (idx + 1)%Z tag'
+                  | None => run_cmp fr accs' rest (idx + 1)%Z tag'
                   end
       end
   end.
 
+Definition diag_of (w : Z) (s : sstate) : list Z :=
+  w :: Z.of_N (s_count s) :: qdiag (s_total s) ++ qdiag (s_min s) ++ qdiag (s_max s)
+    ++ qdiag (s_mean s) ++ qdiag (s_variance s) ++ qdiag (s_msq s).
+
 Definition check_C13 (line : list Z) : list Z :=
   match p_line line with
   | None => verdict V_MALFORMED 0 (-1) []
-  | Some ((k, ops), _) =>
-      match run_cmp (repeat s_init k) ops 0%Z 0%Z with
+  | Some ((k, fr, ops), _) =>
+      (* the fresh accumulator itself: Count = 0, Total = 0, Weight = 0 (position -2) *)
+      match compare fr 0 s_init fr with
+      | Some w => verdict V_MISMATCH 0 (-2) (diag_of w s_init)
+      | None =>
+      match run_cmp fr (repeat s_init k) ops 0%Z 0%Z with
       | (tag, None) => verdict V_OK tag (-1) []
       | (tag, Some (idx, w, s)) =>
           if (w =? -1)%Z then verdict V_MALFORMED tag idx []
-          else verdict V_MISMATCH tag idx
-                 (w :: Z.of_N (s_count s) :: qdiag (s_total s) ++ qdiag (s_min s) ++ qdiag (s_max s)
-                    ++ qdiag (s_mean s) ++ qdiag (s_variance s) ++ qdiag (s_msq s))
-      end
+          else verdict V_MISMATCH tag idx (diag_of w s)
+      end end
   end.
